@@ -19,9 +19,6 @@ CAT_I = 'vibesql_catalog::store::indexes::<impl vibesql_catalog::store::Catalog>
 
 
 CREATE_INDEX_EXC = {
-    M.D + 'create_index': 'not demonstrable: every failure mode of Database::create_index that SQL can provoke (missing table/column, '
-                          'prefix on a non-string column, duplicate name) is rejected by the executor\'s own checks before add_index; what '
-                          'remains are I/O errors of disk-backed index creation',
     M.D + 'create_spatial_index': 'not demonstrable: duplicate names are rejected before add_index (spatial_index_exists); no other failure mode',
 }
 
